@@ -406,74 +406,6 @@ func TestVerifC17Arbiter(t *testing.T) {
 
 // ---- C17c: end to end over real HTTP/1.1 and h2c ----
 
-type vfRefServer struct {
-	addr   string
-	cancel context.CancelFunc
-	done   chan error
-}
-
-func vfStartRefServer(version conformancev1.HTTPVersion) (*vfRefServer, error) {
-	ctx, cancel := context.WithCancel(context.Background())
-	inR, inW := io.Pipe()
-	outR, outW := io.Pipe()
-	errR, errW := io.Pipe()
-	go func() { _, _ = io.Copy(io.Discard, errR) }()
-	s := &vfRefServer{cancel: cancel, done: make(chan error, 1)}
-	go func() {
-		err := RunInReferenceMode(ctx, []string{"reference-server", "-port", "0", "-bind", "127.0.0.1"}, inR, outW, errW, nil)
-		_ = outW.Close()
-		_ = errW.Close()
-		s.done <- err
-	}()
-	req := &conformancev1.ServerCompatRequest{Protocol: conformancev1.Protocol_PROTOCOL_CONNECT, HttpVersion: version}
-	go func() {
-		data, _ := proto.Marshal(req)
-		var l [4]byte
-		binary.BigEndian.PutUint32(l[:], uint32(len(data)))
-		_, _ = inW.Write(append(l[:], data...))
-	}()
-	var l [4]byte
-	type result struct {
-		resp *conformancev1.ServerCompatResponse
-		err  error
-	}
-	ch := make(chan result, 1)
-	go func() {
-		if _, err := io.ReadFull(outR, l[:]); err != nil {
-			ch <- result{nil, err}
-			return
-		}
-		data := make([]byte, binary.BigEndian.Uint32(l[:]))
-		if _, err := io.ReadFull(outR, data); err != nil {
-			ch <- result{nil, err}
-			return
-		}
-		resp := &conformancev1.ServerCompatResponse{}
-		ch <- result{resp, proto.Unmarshal(data, resp)}
-		_, _ = io.Copy(io.Discard, outR)
-	}()
-	select {
-	case r := <-ch:
-		if r.err != nil {
-			cancel()
-			return nil, r.err
-		}
-		s.addr = fmt.Sprintf("%s:%d", r.resp.Host, r.resp.Port)
-		return s, nil
-	case <-time.After(20 * time.Second):
-		cancel()
-		return nil, fmt.Errorf("reference server did not start")
-	}
-}
-
-func (s *vfRefServer) stop() {
-	s.cancel()
-	select {
-	case <-s.done:
-	case <-time.After(10 * time.Second):
-	}
-}
-
 type vfE2ECase struct {
 	H2     bool      `json:"h2"`
 	Method string    `json:"method"` // unary, client-stream, server-stream, bidi
